@@ -27,7 +27,8 @@ def c21_runs(tier):
     runs = []
     maxc = 3 if tier == 'quick' else 4
     bound = 2 if tier == 'quick' else 3
-    opts = {'wakepick_cost': 0}
+    # spin_dev: a waiter that polls before parking may be scheduled through its bounded spin as one deviation
+    opts = {'wakepick_cost': 0, 'spin_dev': 1}
     for c in range(1, maxc + 1):
         for aw in range(0, min(c, 2) + 1):
             rest = c - aw
@@ -354,7 +355,8 @@ def c24_runs(tier):
             add([c, p], b + 1)
             for c2 in (['g', 'rg', 'gg'] if tier == 'quick' else ['g', 'rg', 'gg', 'grg', 'r']):
                 add([c, p, c2], b)
-                add([c, p, c2], 1, mode='tsan')
+                if c in ('rg', 'rgrg') and p in ('e', 'ee'):
+                    add([c, p, c2], 2, mode='tsan')
             for p2 in (['e'] if tier == 'quick' else ['e', 'ee', 'ue']):
                 add([c, p, p2], b)
     if tier != 'quick':
